@@ -30,12 +30,12 @@ theorem shapeOk_visible {S : Schema} (hf : Facts S) (F : List String) : ShapeOk 
     applied to the introspection result returns exactly `forgetDefKeep (visible S F)` — the visible
     schema with **every default value as configured**, minus only required features, applied
     directives, callbacks and `AdditionalTypes`. -/
-theorem rebuildKeep_introspect {S : Schema} (h : Accepted S) (hd : DirArgsUngated S) {F : List String}
+theorem rebuildKeep_introspect {S : Schema} (h : Accepted S) {F : List String}
     (hg : RebuildGuards S F) (hn : NamesOk S.defn) (hc : DefaultsCovered S.defn (visible S F)) :
     rebuildKeep (introspect S F) = .ok (forgetDefKeep (visible S F)) := by
   have hf := facts_of_accepted h
   unfold rebuildKeep
-  rw [describe_exact h F, rebuildRaw_describe true _ _ (rebuildOk_visible h hd hg)]
+  rw [describe_exact h F, rebuildRaw_describe true _ _ (rebuildOk_visible h hg)]
   simp only [Except.map]
   rw [resolveDefaults_forgetDefP (shapeOk_visible hf F) hc hn]
 
@@ -123,14 +123,14 @@ theorem toC04_forgetDefKeep (intro : List C04.TypeDef) (metas : List C04.FieldDe
     (`scalarSpec`: a non-built-in scalar is a custom scalar with unknown literal coercion — the
     statement is about schemas as the specification sees them; the harness's verdict oracle on the
     real `graphql.ParseAndValidate` is restricted to built-in scalars). -/
-theorem rebuild_same_verdicts {S : Schema} (h : Accepted S) (hd : DirArgsUngated S) {F : List String}
+theorem rebuild_same_verdicts {S : Schema} (h : Accepted S) {F : List String}
     (hg : RebuildGuards S F) (hn : NamesOk S.defn) (hc : DefaultsCovered S.defn (visible S F))
     (intro : List C04.TypeDef) (metas : List C04.FieldDef) :
     ∃ g, rebuildKeep (introspect S F) = .ok g
       ∧ toC04 intro metas g = toC04 intro metas (visible S F)
       ∧ ∀ D : C04.Document, C04.Spec.valid (toC04 intro metas g) D = C04.Spec.valid (toC04 intro metas (visible S F)) D := by
   have hf := facts_of_accepted h
-  refine ⟨forgetDefKeep (visible S F), rebuildKeep_introspect h hd hg hn hc, ?_, ?_⟩
+  refine ⟨forgetDefKeep (visible S F), rebuildKeep_introspect h hg hn hc, ?_, ?_⟩
   · exact toC04_forgetDefKeep intro metas (shapeOk_visible hf F)
   · intro D
     rw [toC04_forgetDefKeep intro metas (shapeOk_visible hf F)]
@@ -176,9 +176,9 @@ def witnessD : Schema :=
 
 /-- The hypotheses of `rebuildKeep_introspect` / `rebuild_same_verdicts` are satisfiable by a schema
     with defaulted arguments (a required one among them: the F-10a situation). -/
-example : Accepted witnessD ∧ DirArgsUngated witnessD ∧ RebuildGuards witnessD [] ∧ NamesOk witnessD.defn
+example : Accepted witnessD ∧ RebuildGuards witnessD [] ∧ NamesOk witnessD.defn
     ∧ DefaultsCovered witnessD.defn (visible witnessD []) :=
-  ⟨by unfold Accepted; decide, by unfold DirArgsUngated; decide,
+  ⟨by unfold Accepted; decide,
     ⟨by decide, by decide, by decide, by decide, by decide⟩, by unfold NamesOk; decide,
     defaultsCovered_of_B (by decide)⟩
 
